@@ -3,10 +3,14 @@
 import json, os, re
 ROOT = os.path.dirname(os.path.dirname(os.path.abspath(__file__)))
 rows = ["| seed | property | change (author: independent sub-agent) | needs | caught by (quick tier) | note |", "|---|---|---|---|---|---|"]
+hrows = ["| harmless change | what it changes (author: independent sub-agent) | checks run against it | false alarms |", "|---|---|---|---|"]
 for d in sorted(os.listdir(os.path.join(ROOT, "seeded"))):
     mp = os.path.join(ROOT, "seeded", d, "meta.json")
     if not os.path.exists(mp): continue
     m = json.load(open(mp))
+    if d.startswith("harmless_"):
+        hrows.append("| %s | %s | %s | %s |" % (d, m.get("changes", "see author_notes.md"), " ".join(m.get("checks_run_against_it", [])), " ".join(m.get("false_alarms", [])) or "none"))
+        continue
     gates = "; ".join(g.replace("gate ", "").replace(" failed", "") for g in m.get("failed_gates", [])[:2]) or "–"
     caught = ("**yes**: " + gates) if m.get("caught_by_check") else "**no**"
     rows.append("| %s | %s | %s | %s | %s | %s |" % (d, m["property"], m.get("breaks", ""), m.get("needs_to_manifest", ""), caught, m.get("history", "")))
@@ -15,5 +19,8 @@ p = os.path.join(ROOT, "DESIGN.md")
 s = open(p).read()
 if "SEEDED_TABLE" in s: s = s.replace("SEEDED_TABLE", tab)
 else: s = re.sub(r"<!-- SEEDED:BEGIN -->.*?<!-- SEEDED:END -->", lambda _: tab, s, flags=re.S)
+htab = "<!-- HARMLESS:BEGIN -->\n" + "\n".join(hrows) + "\n<!-- HARMLESS:END -->"
+if "HARMLESS_TABLE" in s: s = s.replace("HARMLESS_TABLE", htab)
+else: s = re.sub(r"<!-- HARMLESS:BEGIN -->.*?<!-- HARMLESS:END -->", lambda _: htab, s, flags=re.S)
 open(p, "w").write(s)
-print(len(rows) - 2, "seeded changes")
+print(len(rows) - 2, "seeded changes,", len(hrows) - 2, "harmless changes")
